@@ -165,7 +165,9 @@ def build(m, E):
     if t == 'delta':
         return m.fp.Pdelta(E['x'] / 32, build(m, E['p']))
     if t == 'dur':
-        return m.fp.Pdur(E['x'] / 32, build(m, E['p']))
+        if E['tl']:
+            return m.fp.Pdur(E['x'] / 32, build(m, E['p']), E['tl'] / 32)
+        return m.fp.Pdur(E['x'] / 32, build(m, E['p']))        # default tolerance 0.001
     if t == 'par':
         return m.ep.Ppar(*[build(m, x) for x in E['l']])
     raise AssertionError(t)
